@@ -1,7 +1,233 @@
-//! C03 — TODO
-use mc_core::Ctx;
+//! C03 — certificate chain verification accepts only chains anchored in the genesis key.
+//!
+//! Two explorers over real code (see seam_a.rs / seam_b.rs), one oracle (oracle.rs), one finite
+//! universe of certificates (pool.rs).
 
-pub fn run(_ctx: &Ctx) -> ! {
-    eprintln!("C03: not implemented");
-    std::process::exit(2)
+use std::collections::BTreeSet;
+
+use mc_core::{Ctx, Report};
+use mithril_common::entities::Certificate;
+use serde_json::json;
+
+use crate::pool::{MutationCfg, World, WorldCfg, seam_a_pool};
+use crate::seam_b::Bounds;
+use crate::{seam_a, seam_b};
+
+const RULE: &str = "Seam A: for every certificate c of the pool (base certificates of 4 chains + every structural mutation) the real \
+verify_certificate(c) is executed once per provider answer (every pool member claiming the requested hash, every base certificate, \
+'not found'; for base rows and re-targeted rows every pool member); a pair is non-trivial when c is sound on its own and the answer \
+claims the requested hash, i.e. the chaining rule itself decides. Seam B: every history of verify_chain calls (any start certificate, \
+provider deviating from the honest answer at a bounded number of requests by serving any pool member / not-found / an error) on the \
+real client verifier sharing one real cache, explored breadth-first over distinct cache contents; a call is non-trivial when at least \
+two certificates were validated or the cache was used. distinct = distinct (certificate, answer) pairs / (cache state, start, deviations) triples";
+
+pub fn run(ctx: &Ctx) -> ! {
+    let threads = ctx.threads();
+    let mut rep = Report::new("model_checking", RULE);
+    let quick = ctx.tier == mc_core::Tier::Quick;
+    let world_cfg = WorldCfg { epochs: ctx.tier.pick(2, 4), per_epoch: 2, with_h3: true };
+    let w = World::build(&world_cfg);
+    let mut_cfg = MutationCfg { retarget_epoch_radius: ctx.tier.pick(1, 2), swap_epoch_radius: 1, second_order: true };
+    let pool = seam_a_pool(&w, &mut_cfg);
+    // seam B works on its own, smaller world (one certificate per epoch)
+    let wb = World::build(&WorldCfg { epochs: ctx.tier.pick(2, 3), per_epoch: 1, with_h3: !quick });
+    let honest_b: Vec<&str> = if quick { vec!["H2"] } else { vec!["H2", "H3"] };
+    let pool_b = seam_b::build_pool(&wb, &honest_b, threads);
+    let bounds: Vec<Bounds> = if quick {
+        vec![Bounds { max_calls: 2, max_devs: 1 }]
+    } else {
+        vec![Bounds { max_calls: 3, max_devs: 1 }, Bounds { max_calls: 2, max_devs: 2 }]
+    };
+    rep.extra(
+        "bounds",
+        json!({
+            "A_epochs_after_genesis": world_cfg.epochs, "A_chains": w.chains.iter().map(|c| format!("{}({} certificates)", c.name, c.certs.len())).collect::<Vec<_>>(),
+            "A_pool": pool.members.len(), "A_retarget_epoch_radius": mut_cfg.retarget_epoch_radius,
+            "B_pool": pool_b.members.len(), "B_honest_chains": honest_b,
+            "B_histories": bounds.iter().map(|b| format!("<= {} verify_chain calls, <= {} provider deviations", b.max_calls, b.max_devs)).collect::<Vec<_>>(),
+        }),
+    );
+
+    if let Some(path) = &ctx.replay {
+        let v = mc_core::load_replay(path);
+        replay(ctx, rep, &v, &pool, &w, &pool_b, &wb);
+    }
+
+    eprintln!("[C03] pools built at {:.1}s (A {} members, B {} members)", ctx.elapsed_s(), pool.members.len(), pool_b.members.len());
+    // ---------------- seam A
+    let full_rows: BTreeSet<usize> = (0..pool.members.len())
+        .filter(|i| {
+            let m = &pool.members[*i];
+            m.base || (!quick && m.origin.mutation.starts_with("~prev:=") && !m.origin.mutation.starts_with("~prev:=("))
+        })
+        .collect();
+    let mut a = seam_a::explore(&pool, &w.genesis_verifier, &full_rows, threads);
+    eprintln!("[C03] seam A pairs done at {:.1}s ({} steps)", ctx.elapsed_s(), a.rep.evaluations);
+    seam_a::check_graph(&pool, &mut a);
+    // completeness on the honest chains: every real link and genesis accepted
+    for ch in w.chains.iter().filter(|c| c.honest) {
+        for (pos, c) in ch.certs.iter().enumerate() {
+            let ci = pool.find(&format!("{}[{}]", ch.name, pos)).expect("base member");
+            let ok = if c.is_genesis() {
+                a.accepted_terminals.contains(&ci)
+            } else {
+                let pi = (0..pool.members.len()).find(|i| pool.members[*i].base && pool.members[*i].cert.hash == c.previous_hash);
+                pi.is_some_and(|pi| a.accepted_edges.contains(&(ci, pi)))
+            };
+            if !ok {
+                seam_a::found(
+                    &mut a.found,
+                    "C03/honest-link-rejected",
+                    format!("verify_certificate({}) with its true previous certificate was not accepted", pool.label(ci)),
+                    json!({"seam": "A", "certificate": pool.label(ci), "answer": null}),
+                );
+            }
+        }
+    }
+    // the adversarial chain is internally consistent: under ITS genesis key every link is accepted
+    {
+        let ach = w.chain("A");
+        for (pos, c) in ach.certs.iter().enumerate() {
+            let answer = ach.certs.iter().find(|p| p.hash == c.previous_hash);
+            let (out, _) = seam_a::step(&w.adversary_genesis_verifier, c, answer);
+            a.rep.eval();
+            if matches!(out, seam_a::StepOutcome::Rejected(_) | seam_a::StepOutcome::Panicked(_)) {
+                a.rep.machinery_error(format!("adversarial chain is not internally consistent at A[{pos}]: {out:?}"));
+            }
+        }
+    }
+    let certs: Vec<&Certificate> = pool.members.iter().map(|m| &m.cert).collect();
+    let chain_defect = seam_a::chain_defects(&certs, &a.facts);
+    let honest_base: Vec<bool> = pool
+        .members
+        .iter()
+        .map(|m| m.base && w.chains.iter().any(|c| c.honest && c.name == m.origin.chain))
+        .collect();
+    let (ac, ac_found) = seam_a::chains_by_hash(&pool, &w.genesis_verifier, &chain_defect, &honest_base, threads);
+    let a_transitions = a.rep.evaluations + ac.evaluations;
+    let mut all_found: seam_a::Found = vec![];
+    all_found.extend(a.found);
+    all_found.extend(ac_found);
+    rep.merge(a.rep);
+    rep.merge(ac);
+    rep.extra("A_pool_members_sound_on_their_own", json!(a.facts.iter().filter(|f| f.ok()).count()));
+    rep.extra("A_pool_members_with_valid_chain", json!(chain_defect.iter().filter(|d| d.is_none()).count()));
+
+    eprintln!("[C03] seam A done at {:.1}s", ctx.elapsed_s());
+    // ---------------- seam B
+    let mut b_states = 0u64;
+    let mut b_calls = 0u64;
+    for b in &bounds {
+        let r = seam_b::explore(&pool_b, &wb, b, threads);
+        b_states = b_states.max(r.states);
+        b_calls += r.calls;
+        let mut part = r.rep;
+        let r_found = r.found;
+        // keep the per-bound breakdown under distinct names
+        let tag = format!("B[{}calls,{}devs]", b.max_calls, b.max_devs);
+        for k in ["B_depths", "B_distinct_cache_states"] {
+            if let Some(v) = part.extras.remove(k) {
+                part.extras.insert(format!("{tag}_{k}"), v);
+            }
+        }
+        rep.merge(part);
+        all_found.extend(r_found);
+    }
+    // smallest counterexample of every key first (only the first few per key are written out)
+    all_found.sort_by(|x, y| {
+        let size = |v: &mc_core::Violation| v.replay.to_string().len();
+        (x.key.as_str(), size(x), x.replay.to_string()).cmp(&(y.key.as_str(), size(y), y.replay.to_string()))
+    });
+    all_found.dedup_by(|x, y| x.key == y.key && x.replay == y.replay);
+    for v in all_found {
+        rep.push_violation(v);
+    }
+    eprintln!("[C03] seam B done at {:.1}s", ctx.elapsed_s());
+    rep.extra("B_pool_members_with_valid_chain", json!(pool_b.chain_defect.iter().filter(|d| d.is_none()).count()));
+
+    // every seam-B violation is re-run from an empty cache through the whole history before it is reported
+    for v in &rep.violations {
+        if v.replay["seam"] == "B" {
+            let Some(h) = seam_b::history_from_json(&pool_b, &v.replay["history"]) else {
+                rep.machinery_errors.push(format!("cannot parse own history for {}", v.key));
+                continue;
+            };
+            let (results, _) = seam_b::run_history(&pool_b, &wb.genesis_vkey_hex, &h);
+            if !results.last().is_some_and(|r| r.ok) {
+                rep.machinery_errors.push(format!("replay divergence: history for {} does not end in Ok when re-run from an empty cache", v.key));
+            }
+        }
+    }
+
+    rep.states = Some(pool.members.len() as u64 + b_states);
+    rep.transitions = Some(a_transitions + b_calls);
+    rep.traces_validated = Some(a_transitions + b_calls);
+    rep.sample(json!({"seam": "A", "pool_member_examples": (0..pool.members.len()).step_by((pool.members.len() / 5).max(1)).map(|i| pool.label(i)).collect::<Vec<_>>()}));
+    rep.sample(json!({"seam": "B", "pool": (0..pool_b.members.len()).map(|i| pool_b.label(i)).collect::<Vec<_>>()}));
+    rep.assume("certificate hash and protocol-message digest computation are trusted (subject of C04); STM aggregate-signature verification and Ed25519 are trusted (C01): the oracle calls them directly on each certificate");
+    rep.assume("the universe is a finite pool: chains of at most 5 epochs, one adversarial key set, Concatenation proofs only (feature future_snark off)");
+    rep.assume("seam A answers: all pool members claiming the requested hash, all base certificates and 'not found' for every row; the full pool for base rows (and, thorough, for re-targeted rows)");
+    rep.assume("seam B cache states are re-created through the public store_validated_certificate API instead of replaying the history; every reported violation is re-run through its whole history from an empty cache");
+    rep.assume("the property text is applied literally: a genesis certificate's own aggregate-key and parameter fields are not covered by the genesis signature and are not judged");
+    rep.finish(ctx)
+}
+
+fn replay(ctx: &Ctx, mut rep: Report, v: &serde_json::Value, pool: &crate::pool::Pool, w: &World, pool_b: &seam_b::PoolB, wb: &World) -> ! {
+    rep.nontrivial(&0);
+    rep.nontrivial(&1);
+    match v["seam"].as_str().unwrap_or("") {
+        "A" | "A-chain" | "A-graph" => {
+            let facts: Vec<_> = pool.members.iter().map(|m| crate::oracle::node_facts(&m.cert, &w.genesis_verifier)).collect();
+            let Some(ci) = v["certificate"].as_str().and_then(|l| pool.find(l)) else {
+                rep.machinery_error("replay: unknown certificate label".into());
+                rep.finish(ctx)
+            };
+            if v["seam"] == "A" {
+                let ai = v["answer"].as_str().and_then(|l| pool.find(l));
+                let (out, _) = seam_a::step(&w.genesis_verifier, &pool.members[ci].cert, ai.map(|i| &pool.members[i].cert));
+                rep.eval();
+                eprintln!("replay: verify_certificate({}) with answer {:?} -> {:?}", pool.label(ci), ai.map(|i| pool.label(i)), out);
+                if let Some((key, what)) = seam_a::judge_step(pool, &facts, ci, ai, &out) {
+                    rep.violation(&key, what, v.clone());
+                }
+            } else {
+                let certs: Vec<&Certificate> = pool.members.iter().map(|m| &m.cert).collect();
+                let cd = seam_a::chain_defects(&certs, &facts);
+                let hb = vec![false; pool.members.len()];
+                let (r, f) = seam_a::chains_by_hash(pool, &w.genesis_verifier, &cd, &hb, 1);
+                rep.evaluations += r.evaluations;
+                // keep only the violation of the replayed certificate
+                for x in f.into_iter().filter(|x| x.replay["certificate"] == v["certificate"]) {
+                    rep.push_violation(x);
+                }
+            }
+        }
+        "B" => {
+            let Some(h) = seam_b::history_from_json(pool_b, &v["history"]) else {
+                rep.machinery_error("replay: cannot parse history".into());
+                rep.finish(ctx)
+            };
+            let (results, cache) = seam_b::run_history(pool_b, &wb.genesis_vkey_hex, &h);
+            for (c, r) in h.iter().zip(&results) {
+                rep.eval();
+                eprintln!(
+                    "replay: verify_chain({}) deviations={:?} -> ok={} {} | requests={:?} | events(cache?,hash)={:?}",
+                    pool_b.label(c.start),
+                    c.devs,
+                    r.ok,
+                    r.error,
+                    r.requests.iter().map(|(h, a)| (h.get(..8).unwrap_or("").to_string(), *a)).collect::<Vec<_>>(),
+                    r.events.iter().map(|(b, h)| (*b, h[..8].to_string())).collect::<Vec<_>>()
+                );
+            }
+            eprintln!("replay: cache at the end: {} entries", cache.len());
+            if let (Some(c), Some(r)) = (h.last(), results.last()) {
+                if let Some((key, what)) = seam_b::judge(pool_b, r, c, h.len() == 1) {
+                    rep.violation(&key, what, v.clone());
+                }
+            }
+        }
+        other => rep.machinery_error(format!("replay: unknown seam '{other}'")),
+    }
+    rep.finish(ctx)
 }
